@@ -63,3 +63,4 @@ g_protos!(q, t, x, args_get, 4, 12, c02::args_get);
 g_protos!(q, x, x, result_get_ok, 4, 7, a::result_get_ok);
 g_protos!(x, x, x, result_get_exc, 4, 12, a::result_get_exc);
 g_protos!(q, t, x, result_void, 4, 7, c02::result_void);
+g_protos!(q, t, x, aliases, 6, 12, c02::aliases);
